@@ -133,6 +133,25 @@ def check_bounded_read_loop(R, f, rid_prefix, loop, counter, buff_names, require
                 okc = not bad
                 det = '' if okc else 'after an empty read the generator can yield or read again'
             else:
+                # behind the loop, a test of the remaining counter is decided: inside the body the loop condition holds (counter > 0) and the
+                # counter has not been lowered between the loop head and this test, nor between the empty read and the later test
+                decn = [g.node_of_stmt(st_)[0] for (st_, _a) in decs] if decs else []
+                fresh_here = not up and all(not g.can_reach(head, d_, avoid_nodes=[tn]) for d_ in decn)
+                decided = []
+                if fresh_here:
+                    for t2 in g.nodes:
+                        if t2.kind != 'test' or t2.ast is None or T._inside(t2.ast, loop.body) or t2 is head:
+                            continue
+                        tt, neg2 = T.strip_not(t2.ast)
+                        cp2 = T.compare_parts(tt) if hasattr(T, 'compare_parts') else None
+                        pos = (isinstance(tt, ast.Name) and tt.id == counter) or \
+                            (cp2 and isinstance(cp2[0], ast.Name) and cp2[0].id == counter and is_const(cp2[2], 0) and cp2[1] in (ast.Gt, ast.NotEq))
+                        before_t2 = g.reachable_from(empty_succ, avoid_nodes=[t2]) if empty_succ else set()
+                        unchanged = not any(d_.name == counter for n_ in before_t2 for d_ in rd.gen.get(n_, []))
+                        if pos and unchanged:
+                            decided.append((t2, 'true' if neg2 else 'false'))     # the edge that cannot be taken
+                if decided:
+                    reach = g.reachable_from(empty_succ, avoid_edges=set(decided))
                 okc = g.exit not in reach and not any(n in ys for n in reach) and cn not in reach
                 det = '' if okc else 'after an empty read the decoder can finish normally, yield or read again instead of raising'
             R.ob(rid_prefix + 'c', f, tn.ast, okc, text=f'if {short(tn.ast)} [{lab}-edge = empty read]', detail=det,
@@ -153,6 +172,39 @@ def check_bounded_read_loop(R, f, rid_prefix, loop, counter, buff_names, require
                      key_extra='yield-guarded')
 
 
+def check_no_part_dropped(R, f, rid):
+    """Every non-empty part received from the stream reaches a yield: directly, or through an accumulator that an end-of-stream exit can flush.
+    Shape independent (any nesting of loops)."""
+    g, rd = f.cfg, f.rd
+    ys = T.yield_nodes(g)
+    for c in read_param_calls(f):
+        var = T.assigned_name_of_call(c)
+        if var is None:
+            continue
+        cn = g.node_of_stmt(c)[0]
+        tests = [(n, lab) for (n, lab) in T.falsy_tests(g, var) if any(d.value is c for d in rd.at(n, var))]
+        if not tests:
+            continue
+        dep = [y for y in ys if any(isinstance(x, ast.Call) and x is c for x in rd.closure_nodes(
+            [v for v in walk_shallow(y.ast) if isinstance(v, (ast.Yield, ast.YieldFrom))][0], y))]
+        for (tn, lab) in tests:
+            nonempty = T.succ_by_label(tn, 'false' if lab == 'true' else 'true')
+            starts = [n for n in nonempty if n not in dep]
+            reach = g.reachable_from(starts, avoid_nodes=dep) if starts else set()
+            direct = g.exit not in reach and cn not in reach
+            if direct and dep:
+                R.ob(rid, f, tn.ast, True, text=f'a non-empty `{var}` is yielded before the next read / the end', key_extra='no-drop')
+                continue
+            # accumulated: the end-of-stream exit must be able to hand on what was collected
+            empty = T.succ_by_label(tn, lab)
+            flush = g.reachable_from(empty) if empty else set()
+            ok = bool(dep) and any(y in flush for y in dep)
+            R.ob(rid, f, tn.ast, ok, text=f'parts collected from `{short(c)}` are handed on when the stream ends', detail='' if ok else
+                 f'a non-empty `{var}` is kept for later and the end-of-stream exit (`{short(tn.ast)}`) leaves without yielding what was collected: '
+                 f'when the stream ends before Content-Length the bytes of the last, partly filled block are lost',
+                 why='the body is the first Content-Length bytes of the stream, or all of it if the stream ends early', key_extra='no-drop')
+
+
 def check_reader_premise(P, R, rid, why):
     """The Content-Length reader hands on every byte of the declared body whatever the stream's read fragmentation (clauses a/b/c of C04 on
     `_iter_body`), reported under another property's rule id: properties about what is parsed from the body borrow this premise."""
@@ -161,6 +213,7 @@ def check_reader_premise(P, R, rid, why):
     S = Sub(R, prefix_map={'C04.': rid}, why=why)
     loops = [n for n in walk_shallow(f.node) if isinstance(n, ast.While)]
     loops = [l for l in loops if any(T.in_body_of(c, l) for c in read_param_calls(f))]
+    check_no_part_dropped(S, f, 'C04.c')
     for loop in loops:
         counter = T.counter_of_while(loop)
         cu = T.countup_of_while(loop) if counter is None else None
@@ -181,6 +234,7 @@ def check(P, R):
     loops = [n for n in walk_shallow(f.node) if isinstance(n, ast.While)]
     loops = [l for l in loops if any(T.in_body_of(c, l) for c in read_param_calls(f))]
     R.require(len(loops) >= 1, f'{f.fq}: no while-loop that reads the stream')
+    check_no_part_dropped(R, f, 'C04.c')
     for loop in loops:
         counter = T.counter_of_while(loop)
         cu = T.countup_of_while(loop) if counter is None else None
@@ -470,3 +524,35 @@ def check_body_props(P, R):
         if not ok and any_int and isinstance(r.value, ast.UnaryOp) and isinstance(r.value.op, ast.USub) and is_const(r.value.operand, 1):
             ok = True        # the explicit `return -1` for a missing / empty header
         R.ob('C04.e', fc, r, ok, detail='' if ok else 'content_length is not int(environ CONTENT_LENGTH)', nontrivial=False)
+
+    # the cached buffer stays open for the whole request: nobody in the package closes it (close() / `with` on it)
+    def _is_body_ref(fn, e, at):
+        for x in fn.rd.closure_nodes(e, at):
+            if isinstance(x, ast.Attribute) and x.attr in ('body', '_body') and isinstance(x.value, ast.Name) and x.value.id in ('self', 'request', 'rq'):
+                return True
+            if isinstance(x, ast.Subscript) and is_const(x.slice, 'wsgi.input') and fn.fq != f.fq:
+                return True
+        return False
+    closers = []
+    for fn in P.all_funcs():
+        if not fn.fq.startswith('ombott.'):
+            continue
+        for n in walk_shallow(fn.node):
+            if isinstance(n, (ast.With, ast.AsyncWith)):
+                ns_ = fn.cfg.node_of_stmt(n.items[0].context_expr)
+                if not ns_:
+                    continue
+                for it in n.items:
+                    if _is_body_ref(fn, it.context_expr, ns_[0]):
+                        closers.append((fn, n, f'with {short(it.context_expr)}'))
+            elif isinstance(n, ast.Call) and isinstance(n.func, ast.Attribute) and n.func.attr == 'close' and not n.args:
+                ns_ = fn.cfg.node_of_stmt(n)
+                if ns_ and _is_body_ref(fn, n.func.value, ns_[0]):
+                    closers.append((fn, n, short(n)))
+    for (fn, n, what) in closers:
+        R.ob('C04.e', fn, n, False, text=f'`{what}` closes the cached request body', detail=
+             f'`{what}` closes the buffered body that is cached in the environ and handed out again by request.body / wsgi.input: after this access every later '
+             f'read of the raw body raises ValueError (I/O operation on closed file) instead of giving the first Content-Length bytes',
+             why='request.body is the same bytes on every access (re-readable, rewound)', key_extra='closes-body')
+    R.ob('C04.e', f, f.node, not closers, text='no function closes the cached request body (no close() / with on it)', detail='' if not closers else
+         f'{len(closers)} site(s) close it', nontrivial=False, key_extra='no-closer')
